@@ -56,6 +56,9 @@ def _run(ctx, replay):
         hc = vlib.tlc_gen(ctx, "Gen_StreamCount", n - n // 2, 60, seed * 104729 + 4)
         # and sessions with one message size and byte limits that are exact multiples of it
         hb = vlib.tlc_gen(ctx, "Gen_StreamBytes", 16 if tier == "quick" else 400, 60, seed * 104729 + 5)
+        # in every other message-count session a nack travels in ONE request together with a deadline
+        # extension of another outstanding message (a nack of the first and nothing else)
+        hc = [[dict(st, op="NackExt") if (i % 2 == 1 and st["op"] == "Nack") else st for st in h] for i, h in enumerate(hc)]
         scen = [{"id": "stream-%d-%d" % (seed, i), "steps": h} for i, h in enumerate(hs)] + \
                [{"id": "streamcount-%d-%d" % (seed, i), "steps": h} for i, h in enumerate(hc)] + \
                [{"id": "streambytes-%d-%d" % (seed, i), "steps": h} for i, h in enumerate(hb)]
@@ -80,6 +83,8 @@ def _run(ctx, replay):
             ("extext", [{"op": "Open", "fcM": 2, "fcB": 1000}, {"op": "Publish", "sizes": [10, 10, 10, 10]}, {"op": "ExtAck", "j": 1}, {"op": "ExtAck", "j": 1}], 2),
             # a nack on the stream, then an external ack of the other outstanding message
             ("nackext", [{"op": "Open", "fcM": 2, "fcB": 1000}, {"op": "Publish", "sizes": [10, 10, 10]}, {"op": "Nack", "j": 1}, {"op": "ExtAck", "j": 1}], 2),
+            # a nack and a deadline extension of the other outstanding message in one request, then an ack
+            ("nackextend", [{"op": "Open", "fcM": 2, "fcB": 1000}, {"op": "Publish", "sizes": [10, 10, 10, 10]}, {"op": "NackExt", "j": 1}, {"op": "Ack", "j": 1}], 2),
         ]
         for name, steps, a in shapes:
             for k in range(1, 7 if tier == "quick" else 13):
